@@ -44,6 +44,7 @@ type Sock struct {
 	sndCap  int
 	peerFin bool
 	peerRst bool
+	rstAtWrite bool // a peer reset becomes visible with the next write (arrives between two polls)
 	closed  bool // closed by the proxy
 	// what the peer observed when the proxy closed
 	closedWithUnread bool
@@ -83,6 +84,8 @@ type KernelCfg struct {
 type KStats struct {
 	Reads, Writes, ShortReads, ShortWrites, EAGAINRead, EAGAINWrite int
 	Polls, PollsMulti, PollTimeouts                                 int
+	PollsTruncated, MaxReady                                        int // ready set larger than the caller's event list; largest ready set
+	RstAtWrite                                                      int // writes that were the first call to meet a peer reset
 	Accepts, Closes, Dials, DialRefused                             int
 }
 
@@ -345,6 +348,17 @@ func (k *Kernel) Writev(fd int, iovs [][]byte) (int, error) {
 	for _, b := range iovs {
 		total += len(b)
 	}
+	if s.rstAtWrite && total > 0 {
+		// the peer's RST reaches this host after the last epoll_wait returned and before this write: the write is the first
+		// call to learn about it (no EPOLLHUP/EPOLLERR was reported beforehand)
+		s.rstAtWrite = false
+		s.peerRst = true
+		s.in = nil
+		k.Stats.RstAtWrite++
+		k.logf("write fd=%d sock=%d ECONNRESET (RST arrived since the last poll)", fd, s.id)
+		k.pollHash.Write([]byte("wR"))
+		return -1, unix.ECONNRESET
+	}
 	if s.peerRst {
 		k.logf("write fd=%d sock=%d EPIPE", fd, s.id)
 		k.pollHash.Write([]byte("wP"))
@@ -566,6 +580,12 @@ func (k *Kernel) EpollWait(epfd int, evs []unix.EpollEvent, msec int) (int, erro
 	}
 	n := 0
 	desc := ""
+	if len(rl) > k.Stats.MaxReady {
+		k.Stats.MaxReady = len(rl)
+	}
+	if len(rl) > len(evs) {
+		k.Stats.PollsTruncated++
+	}
 	for _, r := range rl {
 		if n >= len(evs) {
 			break
@@ -679,6 +699,14 @@ func (k *Kernel) PeerFin(s *Sock) {
 	defer k.mu.Unlock()
 	s.peerFin = true
 	k.logf("peer FIN sock=%d", s.id)
+}
+
+// ArmRstAtWrite: the next non-empty write on s fails with ECONNRESET (a reset that arrives between two polls).
+func (k *Kernel) ArmRstAtWrite(s *Sock) {
+	k.mu.Lock()
+	defer k.mu.Unlock()
+	s.rstAtWrite = true
+	k.logf("RST armed for the next write on sock=%d", s.id)
 }
 
 func (k *Kernel) PeerRst(s *Sock) {
